@@ -275,6 +275,7 @@ def compare_variant(ctx, source, vname, base, var, id_labels=False, text=None):
 def mirror_check(ctx, source, base, mir, text=None):
     """(b) same constitution; handedness of every non-planar centre inverted"""
     (d0, p0), (d1, p1) = base, mir
+    todo = []       # (fragment id, constitution, centre triples, number of stereo marks, coords, mirrored coords)
     for f in d0.frags:
         fid = f["id"]
         c0, x0 = p0.by_frag.get(fid, ("missing", None))
@@ -293,9 +294,14 @@ def mirror_check(ctx, source, base, mir, text=None):
         if not quads:
             ctx.case(f"mirror:{source}:{fid}", nontrivial=False)
             continue
-        s0 = ctx.driver([L.encode_orient(x0, quads)])[0].split(",")
-        s1 = ctx.driver([L.encode_orient(x1, quads)])[0].split(",")
-        flip = {"+": "-", "-": "+", "0": "0"}
+        todo.append((fid, c0, quads, nstereo, x0, x1))
+    if not todo:
+        return
+    # one driver call for the whole file: the drawing's and the mirrored drawing's coordinates of every fragment
+    outs = ctx.driver([L.encode_orient(x, q) for (_, _, q, _, x0, x1) in todo for x in (x0, x1)])
+    flip = {"+": "-", "-": "+", "0": "0"}
+    for k, (fid, c0, quads, nstereo, x0, x1) in enumerate(todo):
+        s0, s1 = outs[2 * k].split(","), outs[2 * k + 1].split(",")
         nonplanar = sum(1 for s in s0 if s != "0")
         ctx.case(f"mirror:{source}:{fid}", nontrivial=nonplanar > 0)
         ctx.count("mirror:fragments")
@@ -505,7 +511,7 @@ def run(ctx):
         sources.append(("corpus:" + p.name, p, p.read_text()))
     for p in sorted((REPO / "molli" / "files").glob("*.cdxml")):
         sources.append((rel(p), p, None))
-    nsyn = (6, 20) if ctx.quick() else (150, 500)
+    nsyn = (3, 8) if ctx.quick() else (150, 500)
     for i in range(nsyn[0]):
         t = synth_constitution(rng, 14 if ctx.quick() else 20)
         p = work / f"synth_const_{i}.cdxml"
@@ -532,23 +538,27 @@ def run(ctx):
             mir = check_file(ctx, mp, source, "mirror", mp.read_text())
             mirror_check(ctx, source, base, mir)
             # new drawings: stereo marks re-drawn at random (other stereoisomers, marks at the other bond end), then mirrored
-            for r in range(1 if ctx.quick() else 6):
+            nre = 6 if not ctx.quick() else (0 if "BOX_4position" in source else 1)
+            for r in range(nre):
                 sp = L.variant_restereo(d0, work / f"{stem}_restereo.cdxml", rng)
                 tag = f"restereo-{r}"
                 sb = check_file(ctx, sp, source, tag, sp.read_text())
                 smp = L.variant_mirror(sb[0], work / f"{stem}_restereo_mirror.cdxml")
                 sm = check_file(ctx, smp, source, tag + ":mirror", smp.read_text())
                 mirror_check(ctx, source + ":" + tag, sb, sm, text=sp.read_text())
-        if source.startswith("synthetic-labels") or not ctx.quick() or "BOX_4position" not in source:
-            # permute
+        # page-level variants; the quick tier gives every bundled drawing ONE of them (rotating with the seed), small
+        # drawings (corpus, synthetic) and the thorough tier all three
+        small = not source.startswith("repo:")
+        pick = (si + ctx.seed) % 3
+        if small or not ctx.quick() or pick == 0:
             pp = L.variant_permute(d0, work / f"{stem}_permute.cdxml", rng)
             compare_variant(ctx, source, "permute", base, check_file(ctx, pp, source, "permute", pp.read_text()), text=pp.read_text())
-            # translate
+        if small or not ctx.quick() or pick == 1:
             dx, dy = Fraction(rng.range(-2000, 30000), 100), Fraction(rng.range(-2000, 30000), 100)
             tp = L.variant_translate(d0, work / f"{stem}_translate.cdxml", dx, dy)
             compare_variant(ctx, source, f"translate:{dx},{dy}", base,
                             check_file(ctx, tp, source, f"translate:{dx},{dy}", tp.read_text()), text=tp.read_text())
-            # renumber
+        if small or not ctx.quick() or pick == 2:
             off = rng.choice([100000, 250000, 7000000])
             rp_ = L.variant_renumber(d0, work / f"{stem}_renumber.cdxml", off)
             compare_variant(ctx, source, f"renumber:{off}", base,
